@@ -431,17 +431,51 @@ def gen_mesh_data(parts, vec_views):
     parts.append(("RawMeshData._prepare_vertices", T.sha(src, fn)))
     b = T.body_nodoc(fn)
     ok = len(b) == 1 and isinstance(b[0], ast.For) and T.dotted(b[0].iter) == "self.id_vertices" \
-        and isinstance(b[0].target, ast.Name) and len(b[0].body) == 1 and isinstance(b[0].body[0], ast.Assign)
+        and isinstance(b[0].target, ast.Name)
     if not ok:
         T.fail(MD, fn, "_prepare_vertices is not `for iv in self.id_vertices: self.vertices[iv] = ...`")
-    st = b[0].body[0]
-    tg = st.targets[0]
-    if not (isinstance(tg, ast.Subscript) and T.dotted(tg.value) == "self.vertices" and T.dotted(tg.slice) == b[0].target.id):
+    # straight-line body over local names: each local is a fresh array (Copy) or the stored vector itself (Alias)
+    loc = {}
+    floats = False
+    var = b[0].target.id
+    body = list(b[0].body)
+
+    def mode_of(e):
+        nonlocal floats
+        if isinstance(e, ast.Name) and e.id in loc:
+            return loc[e.id]
+        if isinstance(e, ast.Call) and T.dotted(e.func) == "np.append" and len(e.args) == 2 and not e.keywords:
+            mode_of(e.args[0])
+            return "Copy"                      # np.append always builds a new array
+        if isinstance(e, ast.Call) and T.dotted(e.func) in ("Vec", "np.asarray") and len(e.args) == 1 \
+                and isinstance(e.args[0], ast.Name) and e.args[0].id in loc:
+            return "Copy" if not vec_views else loc[e.args[0].id]
+        m = classify(MD, e, {"self.vertices"}, vec_views)
+        if isinstance(e, ast.Call) and T.dotted(e.func) == "np.array":
+            for kw in e.keywords:
+                if kw.arg == "dtype" and T.dotted(kw.value) == "float":
+                    floats = True
+        return m
+    mode = None
+    for st in body:
+        if isinstance(st, ast.Assign) and isinstance(st.targets[0], ast.Name):
+            loc[st.targets[0].id] = mode_of(st.value)
+        elif isinstance(st, ast.If) and not st.orelse and len(st.body) == 1 and isinstance(st.body[0], ast.Assign) \
+                and isinstance(st.body[0].targets[0], ast.Name) and st.body[0].targets[0].id in loc:
+            # conditional re-binding of a local (2-D points padded with z = 0): both branches must agree on the mode
+            nm = st.body[0].targets[0].id
+            m2 = mode_of(st.body[0].value)
+            if m2 != loc[nm]:
+                T.fail(MD, st, "the padded and the unpadded vector are not taken over in the same way")
+        elif isinstance(st, ast.Assign) and isinstance(st.targets[0], ast.Subscript) \
+                and T.dotted(st.targets[0].value) == "self.vertices" and T.dotted(st.targets[0].slice) == var and mode is None:
+            mode = mode_of(st.value)
+        else:
+            T.fail(MD, st, "unexpected statement in _prepare_vertices")
+    if mode is None:
         T.fail(MD, fn, "_prepare_vertices does not assign self.vertices[iv]")
-    rhs = st.value
-    # classify relative to self.vertices[iv]
-    mode = classify(MD, rhs, {"self.vertices"}, vec_views)
     out.append("Definition prepare_vertex_mode : cmode := %s." % mode)
+    out.append("Definition prepare_stores_floats : bool := %s." % ("true" if floats else "false"))
     # dimensionality chain
     fn = T.find_def(tree, "RawMeshData._compute_dimensionality", MD)
     parts.append(("RawMeshData._compute_dimensionality", T.sha(src, fn)))
